@@ -41,6 +41,18 @@ def render() -> str:
         m = json.loads(d.read_text())
         out.append(f"| {m['id']} | {m['breaks_property']} | {m['needs_to_manifest']} | {m['first_result']} | "
                    f"{m['final_result']} | {m['strengthened']} |")
+    out.append("\n### 11.7 As-built summary per property (from mbv/props/cNN.meta.json; details and mutation tables in cNN.selftest.md)\n")
+    props = [json.loads(l) for l in (VERIF / "properties.jsonl").read_text().splitlines() if l.strip()]
+    for pr in props:
+        pid = pr["id"]
+        mf = VERIF / "mbv" / "props" / f"{pid.lower()}.meta.json"
+        if mf.exists():
+            m = json.loads(mf.read_text())
+        else:
+            from .registry import CHECKS
+            m = {"text": CHECKS.get(pid, {}).get("text", "(not built)"), "note": CHECKS.get(pid, {}).get("note", ""),
+                 "technique": CHECKS.get(pid, {}).get("technique", "")}
+        out.append(f"**{pid} - {pr['title']}.** {m.get('text', '')}\n\n*Trusted base / limits:* {m.get('note', '')}\n")
     return "\n".join(out) + "\n"
 
 
